@@ -225,3 +225,27 @@ Definition expected (c : cfg) (b : Z) : option cell :=
   else if (0 <=? x) && (g <? c_ns c + c_ns2add c) then
     Some (first_of c (last_batch c), c_ns c - 1 - first_of c (last_batch c), col)
   else None.
+
+(* ---- the saturation vector (_iblqc_ephysSaturation.samples.npy) ------------ *)
+(* saturated_samples, mute_saturation = saturation(data=chunk, ...) is called on the chunk as
+   read, BEFORE chunk[:, :T] *= taper[:T]: the verdict is that of the raw voltages. *)
+Inductive stage := Raw | Tapered.
+Definition sat_input_stage : stage := Raw.
+Definition stage_code (s : stage) : Z := match s with Raw => 0 | Tapered => 1 end.
+
+(* _saturation[first_s:last_s] = saturated_samples : one slice assignment per loop pass *)
+Definition sat_op := (Z * Z)%type.
+Definition sat_ops_of (r : wres) : list sat_op :=
+  match r with WOk evs _ => map (fun e => (e_first e, e_last e)) evs | _ => [] end.
+Definition all_sat_ops (c : cfg) : list sat_op := flat_map sat_ops_of (workers c).
+
+(* whose verdict sample g holds after a schedule of the assignments (later ones win):
+   (first_s of the batch, local index in its chunk); None = never assigned (stays False) *)
+Definition sat_apply (g : Z) (cur : option (Z * Z)) (op : sat_op) : option (Z * Z) :=
+  if (fst op <=? g) && (g <? snd op) then Some (fst op, g - fst op) else cur.
+Definition sat_after (sched : list sat_op) (g : Z) : option (Z * Z) :=
+  fold_left (sat_apply g) sched None.
+
+(* first and last batch whose read range holds sample g *)
+Definition sat_first (c : cfg) (g : Z) : Z := Z.max 0 (cdiv (g - c_NB c + 1) (stride c)).
+Definition sat_last (c : cfg) (g : Z) : Z := Z.min (last_batch c) (g / stride c).
